@@ -218,6 +218,30 @@ Theorem legend_line_is_bounded : forall s x, legend_line s = Ok x -> (String.len
 Proof. exact legend_line_bounded. Qed.
 Print Assumptions legend_line_is_bounded.
 
+(* -- limiting the number of nodes (report.go newTrimmedGraph -> graph.go selectTopNodes: g.Nodes[:maxNodes]) --
+   for EVERY node count an option, an integer argument or a URL parameter can carry (negative, huge) and every graph size:
+   the slice bound is in range, the result is the graph size or at most the positive count asked for *)
+Theorem limit_nodes_never_panics : forall node_count len, 0 <= len ->
+  is_panic (limit_nodes node_count_guard node_count len) = false.
+Proof. exact limit_nodes_no_panic. Qed.
+Print Assumptions limit_nodes_never_panics.
+
+Theorem limit_nodes_result_in_bounds : forall node_count len m, 0 <= len ->
+  limit_nodes node_count_guard node_count len = Ok m -> 0 <= m <= len /\ (0 < node_count -> m <= node_count).
+Proof. exact limit_nodes_bounds. Qed.
+Print Assumptions limit_nodes_result_in_bounds.
+
+(* that guard, read from the source on every run, is [nodeCount > 0] *)
+Theorem node_limit_guard_is_positive_test : node_limit_guard = "> 0".
+Proof. exact node_limit_guard_fact. Qed.
+Print Assumptions node_limit_guard_is_positive_test.
+
+(* the callee relies on that guard: with "not zero" in its place every negative count panics *)
+Theorem limit_nodes_needs_positive_guard : forall len n, 0 <= len -> n < 0 ->
+  is_panic (limit_nodes (fun k => negb (k =? 0)) n len) = true.
+Proof. exact limit_nodes_weak_guard_panics. Qed.
+Print Assumptions limit_nodes_needs_positive_guard.
+
 (* -- non-vacuity and the necessity of the hypotheses -- *)
 Example legend_examples :
   legend_active_filters [] = Ok [] /\
